@@ -112,13 +112,9 @@ def fail_category(exp):
 # ----------------------------------------------------------------------------- avoidance rules (random part)
 
 def avoid(case, exp):
-    """Constructs of the reported findings; the deterministic matrix pins them, the random part skips them."""
-    op, a, b = case
-    if op == "<<" and exp[0] == "fail" and exp[1].startswith("shl:"):
-        return "shl_lost_bits"
-    if op == "%" and b is not None and b[1] == -1 and a[0] in ("int", "bigint") and a[1] == N.RANGE[a[0]][0] \
-            and b[0] != "float":
-        return "rem_min_by_minus_one"
+    """Constructs of unrepaired findings that the random part must skip (the matrix pins them).  None at present:
+    the former rules shl_lost_bits and rem_min_by_minus_one were removed when /repo repaired both defects
+    (1268d94, c562645)."""
     return None
 
 
@@ -611,8 +607,7 @@ def run(ctx):
         "matrix_cases_total": len(matrix), "matrix_cases_run_via_variables": len(chosen),
         "cases_via_parameters": len(other), "cases_via_list_elements": len([c for c in other if c[1][0] != "bool"]),
         "random_cases": len(rnd),
-        "avoidance_rules": {"shl_lost_bits": "random operands skip `<<` whose exact result does not fit (pinned in the matrix)",
-                            "rem_min_by_minus_one": "random operands skip MIN % -1 on int/bigint (pinned in the matrix)"},
+        "avoidance_rules": {},
         "avoided_random_draws": avoided,
         "deviation_cases_per_signature": dict(sorted(fam.items())),
         "boundary_values_per_kind": {k: len(v) for k, v in VALUES.items()},
